@@ -77,6 +77,16 @@ def special_forms():
                         settings={"namespaces": 'x="http://x.example/1" y="http://y.example/1"'})
     e.entities = {"list_name": "ents", "label": "${a}"}
     out.append(("entities+namespaces", e, {}))
+    # several external data sources named from different cells of one row (iteration order over module-level sets must not leak into the output)
+    out.append(("pulldata-in-four-binds", gen.simple_form([
+        ("text", "k", {"label": "K"}),
+        ("integer", "v", {"label": "V", "calculation": "pulldata('fa', 'a', 'k', ${k})", "constraint": ". < pulldata('fb', 'a', 'k', ${k})",
+                          "relevant": "pulldata('fc', 'a', 'k', ${k}) != ''", "required": "pulldata('fd', 'a', 'k', ${k}) = 'y'",
+                          "read_only": "pulldata('fe', 'a', 'k', ${k}) = 'y'"})]), {}))
+    # an error message that lists a module-level set
+    out.append(("from-file-bad-extension-error", gen.simple_form([("select_one_from_file cities.txt", "c", {"label": "C"})]), {}))
+    # both id headers: the converter drops one of them - from its own copy, not from the caller's workbook
+    out.append(("both-id-headers", gen.simple_form([("text", "q", {"label": "Q"})], settings={"id_string": "ids", "form_id": "fid", "form_title": "t"}), {}))
     # shared singletons: every form that mentions last-saved needs its own instance declaration
     for v in range(4):
         out.append((f"last-saved-{v}", gen.simple_form([("text", f"x{v}", {"label": "X", "default": "${last-saved#x%d}" % v}),
